@@ -1,6 +1,7 @@
 import Verif.Proofs.CssGrammar
 import Verif.Proofs.CssSel
 import Verif.Proofs.CssShorthand
+import Verif.Proofs.CssBackground
 import Verif.Model.CssShorthand
 import Verif.Spec.CssGrammarSpec
 /-!
@@ -306,6 +307,30 @@ open Verif.Model.Css Verif.Model.CssShorthand Verif.Spec.CssShorthand in
 example : let d0 : FontDen := ⟨"normal".toList, "normal".toList, .abs 400, "normal".toList, normalTok, normalTok, []⟩
     let pre := [tok .ident "Normal", tok .ident "italic", tok .ident "BOLD", tok .ident "normal"]
     (fillPre pre d0 []).isSome = true ∧ lexemes (pre.filterMap fontPreTok) = "italic700".toList := by decide +kernel
+
+open Verif.Model.Css Verif.Model.CssShorthand Verif.Spec.CssShorthand Verif.Proofs.CssBackground in
+/-- **background_ok** (partial; explicit decidable guard `bgLayerGuard` on every layer: no position / size component
+and no slash, at most one repeat keyword — no pair to merge —, not both `padding-box` and `border-box` — no pair to
+remove —, and the colour rewrite of the code keeps the component class and value of every token — `sTok`; for
+colours that is `Props.C04.color_ok_partial` and the colour tables): every such `background` value, any number of
+layers, keeps the component slots of every layer: image, repeat, attachment, origin, clip, colour; `none`, `scroll`,
+`transparent`, `#0000` are removed because they are the initial values; a layer that becomes empty is written `0 0`
+(the initial position).  The position / size / repeat-pair rewrites are those of the longhands (`Props.C04`:
+`bg_position_ok`, `bg_size_ok`, `bg_repeat_ok`); their composition inside the shorthand is not proved (harness:
+`spec.c04b.decl` on every generated value). -/
+theorem background_ok_partial (vs : List Tok) (ds : List BgLayer)
+    (hg : ∀ seg ∈ Verif.Spec.CssValue.splitCommas vs, bgLayerGuard seg = true) (hden : bgDen vs = some ds) :
+    bgDen (minifyBackground vs) = some ds :=
+  Verif.Proofs.CssBackground.background_ok_partial vs ds hg hden
+
+/-- `url(x) scroll no-repeat content-box , NONE fixed #FF0000` -/
+def exBg2 : List Tok :=
+  [tok .url "url(x)", tok .ident "scroll", tok .ident "no-repeat", tok .ident "content-box", tok .comma ",",
+   tok .ident "NONE", tok .ident "fixed", tok .hash "#FF0000"]
+
+open Verif.Model.Css Verif.Model.CssShorthand Verif.Spec.CssShorthand Verif.Proofs.CssBackground in
+example : (Verif.Spec.CssValue.splitCommas exBg2).all bgLayerGuard = true ∧ (bgDen exBg2).isSome = true ∧
+    lexemes (minifyBackground exBg2) = "url(x)no-repeatcontent-box,fixedred".toList := by decide +kernel
 
 /-- `normal bold 12px/normal "Times New Roman", serif` -/
 def exFont : List Tok :=
